@@ -45,6 +45,32 @@ for pid in sorted(props):
     for f in fs:
         out.append("* %s%s `%s`: %s" % (f["status"], (" " + f["commit"]) if f.get("commit") else "", f["signature"], f["what"][:300]))
     out.append("")
+# 10.2 regenerated facts: Gen module -> extractor file -> properties whose proof modules import it
+out.append("### 10.2 Regenerated facts (tie A), as built\n")
+out.append("| Gen module | extractor | first lines of the extractor's description | imported by the proofs of |")
+out.append("|---|---|---|---|")
+users = {}
+for pid in sorted(props):
+    cp = os.path.join(root, "checks", pid + ".json")
+    if not os.path.exists(cp): continue
+    c = json.load(open(cp)); seen = set()
+    def deps2(m):
+        path = os.path.join(root, "lean", *m.split(".")) + ".lean"
+        if m in seen: return
+        seen.add(m)
+        if not os.path.exists(path): return
+        for line in open(path):
+            mm = re.match(r"\s*import\s+(RqModel\.\S+)", line)
+            if mm: deps2(mm.group(1))
+    for m in c.get("lean_modules", ["RqModel.Props." + pid]): deps2(m)
+    for m in seen:
+        if ".Gen." in m: users.setdefault(m.split(".")[-1], []).append(pid)
+for fp in sorted(glob.glob(os.path.join(root, "harness", "extract", "facts_*.go"))):
+    src = open(fp).read()
+    for name in re.findall(r'register\("(\w+)"', src):
+        desc = " ".join(l.strip("/ ").strip() for l in src.split("\n") if l.startswith("//"))[:260]
+        out.append("| `%s` | `%s` | %s | %s |" % (name, os.path.basename(fp), desc.replace("|", "\\|"), ", ".join(users.get(name, [])) or "-"))
+out.append("")
 text = "\n".join(out)
 dp = os.path.join(root, "DESIGN.md")
 d = open(dp).read()
